@@ -766,6 +766,12 @@ def cases(rng, tier):
         out.append(case_single(rng, tier, i, degen=True))
     for i in range(4 if q else 40):
         out.append(case_single(rng, tier, i, degen=bool(i % 2), which='bingham', force_finite=True))
+    # the NaN/Inf clause has no theorem behind it: a larger predicate-only budget on every run (no Coq expression)
+    for i in range(300 if q else 4000):
+        r = i % 4
+        c = case_model(rng, tier, i, degen=(r != 0)) if r < 2 or r == 3 else case_single(rng, tier, i, degen=True)
+        c.coq, c.kind = None, 'explore/' + c.kind
+        out.append(c)
     return out
 
 
